@@ -9,6 +9,7 @@ import (
 
 	"verifharness/hx"
 
+	"github.com/iotaledger/hive.go/runtime/syncutils"
 	"github.com/iotaledger/hive.go/runtime/workerpool"
 )
 
@@ -64,6 +65,7 @@ func runConfig(line string) *result {
 		r.fail("termination", "group pool not complete after Group.Shutdown", classifyPool(gp, "complete"))
 	}
 	dupNames(r, bad)
+	popOrWaitHoldsMutex(r, bad)
 	r.count("config")
 	r.nontriv = line
 
@@ -133,4 +135,29 @@ func dupNames(r *result, bad func(what string, got, want any)) {
 		r.fail("termination", "the replacing pool did not complete after Group.Shutdown", classifyPool(fresh, "complete"))
 	}
 	r.count("config-dup-names")
+}
+
+// popOrWaitHoldsMutex: the lock scripts (Hive/Model/WorkerPoolLock.lean) take for granted that Stack.PopOrWait evaluates
+// its argument while holding the stack's mutex (the dispatcher's hasWork therefore takes the pool lock UNDER the stack
+// mutex: the edge w.Queue.mutex -> w.mutex).  Observed here: a Size() issued from another goroutine while the condition
+// callback runs does not return before the callback does.
+func popOrWaitHoldsMutex(r *result, bad func(what string, got, want any)) {
+	st := syncutils.NewStack[int]()
+	sizeBlocked := false
+	done := make(chan struct{})
+	go func() {
+		defer close(done)
+		st.PopOrWait(func() bool {
+			sizeBlocked = !within(60*time.Millisecond, func() { st.Size() })
+
+			return false // give up waiting: PopOrWait returns
+		})
+	}()
+	if !waitChan(done, bound) {
+		r.fail("termination", "Stack.PopOrWait did not return after its condition said false", map[string]string{"api": "syncutils.Stack.PopOrWait", "effect": "hang"})
+
+		return
+	}
+	bad("Stack.PopOrWait evaluates its condition while holding the stack mutex", sizeBlocked, true)
+	bad("the stack is usable afterwards", within(bound, func() { st.Size() }), true)
 }
